@@ -209,7 +209,7 @@ class Ctx:
 TICK_RULES = {
     "C06.update-guard", "C12.stale-guard", "C12.stream-switch", "C13.arm-under-lock", "C13.disarm-first", "C13.cancel-writers",
     "C19.cancel-writers", "C19.update-guard", "C19.changed-guards-mutation", "C19.running-guards-spawn", "C19.running-formula",
-    "C19.status-lattice", "C19.pattern-handover", "C19.cancel-lock", "C20.transitions",
+    "C19.status-lattice", "C19.pattern-handover", "C19.cancel-lock", "C06.cancel-lock", "C20.transitions",
 }
 SCORING_RULES = {"C15.none-sources", "C15.config-writes", "C15.config-before-call", "C15.dispatch-tables", "C15.negation", "C15.sum-and-propagate", "C10.config-only-state"}
 _SCORING_ARCH = {}
